@@ -32,7 +32,7 @@ EXPLANATION = ("A dataset with symbolic chunk payloads is written by the real lo
 BOUNDS = {"quick": "plain flat datasets (gzip on/off) with 3 chunks; sharded 2x2x2 and 3x2x1 grids with bit triples (0,0,0),(1,1,0),(1,0,1),"
                    "(2,2,0), raw+gzip, .shard files and legacy .index/.data pairs; every chunk position; 4 URL spellings; every "
                    "request index x 10 fault kinds",
-          "thorough": "grids 2x2x2, 3x2x1, 3x3x2, 4x1x2, 2x1x1 x 7 bit triples, every fault at every request of every chunk read"}
+          "thorough": "grids 2x2x2, 3x2x1, 3x3x2, 4x1x2, 2x1x1 x 7 bit triples x 4 index/data encoding pairs x {.shard, legacy .index/.data}, every fault at every request of every chunk read"}
 OUTSIDE = ["real sockets, TLS, redirects, content-encoding negotiation", "servers that corrupt bytes without changing lengths"]
 
 FAULTS = [404, 403, 500, 503, "conn", "short", "long", "ignore-range", 502, 410]
